@@ -24,6 +24,7 @@ pub struct World {
     pub log: u64,
     pub steps: u64,
     pub bytes: u64,
+    pub tlogs: Vec<u64>,
 }
 
 pub struct S4;
@@ -91,7 +92,7 @@ impl Scenario for S4 {
         let swarm = J::obj()
             .set("w_update", J::U(sw.range(3, 8) as u128))
             .set("w_chain", J::U(sw.range(0, 1) as u128))
-            .set("w_clone", J::U(sw.range(0, 2) as u128))
+            .set("w_clone", J::U(if mix == "C18" { sw.range(0, 0) } else { sw.range(0, 2) } as u128))
             .set("w_reset", J::U(sw.range(0, 1) as u128))
             .set("w_finres", J::U(sw.range(0, 2) as u128))
             .set("w_final", J::U(sw.range(1, 2) as u128))
@@ -109,7 +110,7 @@ impl Scenario for S4 {
             let real = guarded(|| new_hash(ty)).ok();
             tasks.push(Task { ty, real, msg: vec![], cloned: false, reused: false, multi_with_fill: false });
         }
-        World { host, tasks, swarm: setup.get("swarm").cloned().unwrap_or(J::obj()), log: 0, steps: 0, bytes: 0 }
+        World { host, tasks, swarm: setup.get("swarm").cloned().unwrap_or(J::obj()), log: 0, steps: 0, bytes: 0, tlogs: vec![] }
     }
     fn gen_op(&self, w: &World, _mix: &str, st: &mut Streams) -> Option<Op> {
         let live: Vec<usize> = (0..w.tasks.len()).filter(|i| w.tasks[*i].real.is_some()).collect();
@@ -190,6 +191,10 @@ impl Scenario for S4 {
         w.steps += 1;
         let mut rh = 0u64;
         let r = step_inner(w, ti, op, stats, &mut rh);
+        if ti >= w.tlogs.len() {
+            w.tlogs.resize(ti + 1, 0);
+        }
+        w.tlogs[ti] = (w.tlogs[ti].rotate_left(7) ^ op.hash_nt()).wrapping_mul(0x9e37_79b9_7f4a_7c15) ^ rh;
         w.log = (w.log.rotate_left(7) ^ op.hash()).wrapping_mul(0x9e37_79b9_7f4a_7c15) ^ rh;
         r
     }
@@ -206,12 +211,19 @@ impl Scenario for S4 {
             if let Step::Fail(v) = step_inner(w, ti, &op, stats, &mut rh) {
                 return Step::Fail(v);
             }
+            if ti >= w.tlogs.len() {
+                w.tlogs.resize(ti + 1, 0);
+            }
+            w.tlogs[ti] = (w.tlogs[ti].rotate_left(7) ^ 0x51).wrapping_mul(0x9e37_79b9_7f4a_7c15) ^ rh;
             w.log = (w.log.rotate_left(7) ^ 0x51).wrapping_mul(0x9e37_79b9_7f4a_7c15) ^ rh;
         }
         Step::Done
     }
     fn log_digest(&self, w: &World) -> u64 {
         w.log
+    }
+    fn task_logs(&self, w: &World) -> Vec<u64> {
+        w.tlogs.clone()
     }
     fn shrink_setup(&self, setup: &J, ops: &[Op]) -> Vec<(J, Vec<Op>)> {
         let mut out = Vec::new();
